@@ -46,7 +46,12 @@ static inline void ring_fixup_tail(struct ring_head *r)
 
 static inline int ring_fixup_index(struct ring_head *r, int index)
 {
-    return index % r->size;
+    /* a plain "index % r->size" converts a negative index to unsigned first,
+       which is only right when the size is a power of two */
+    int size = (int)r->size;
+
+    index %= size;
+    return index < 0 ? index + size : index;
 }
 
 __ALWAYS_INLINE static inline int ring_empty(struct ring_head *r)
